@@ -1,4 +1,5 @@
 """URL-level helpers for the harnesses (loaded through the instrumenter)."""
+import inspect
 from common import call, all_of, any_of, sym_eq
 
 HEXU = "0123456789ABCDEF"
@@ -49,3 +50,31 @@ def no_dot_segment(raw_path):
     for seg in raw_path.split("/"):
         conds.append(all_of([sym_eq(seg, ".") == False, sym_eq(seg, "..") == False]))  # noqa: E712
     return all_of(conds)
+
+
+# accessors whose evaluation needs IDNA decoding of the host: evaluated last so that the counted exclusion cuts nothing else
+IDNA_LAST = ("host", "authority", "human_repr")
+
+
+def discover(P):
+    """public properties and nullary public methods of the live URL class"""
+    props, methods = [], []
+    for name in sorted(dir(P.URL)):
+        if name.startswith("_"):
+            continue
+        attr = inspect.getattr_static(P.URL, name)
+        if isinstance(attr, (classmethod, staticmethod)):
+            continue
+        if callable(attr) and not hasattr(attr, "__get__"):
+            continue
+        if inspect.isfunction(attr):
+            sig = inspect.signature(attr)
+            required = [p for p in list(sig.parameters.values())[1:] if p.default is p.empty and p.kind in (p.POSITIONAL_ONLY, p.POSITIONAL_OR_KEYWORD)]
+            if not required and not any(p.kind is p.VAR_POSITIONAL for p in sig.parameters.values()):
+                methods.append(name)
+        else:
+            props.append(name)
+    order = [n for n in props + methods if n not in IDNA_LAST] + [n for n in IDNA_LAST if n in props + methods]
+    return order, set(methods)
+
+
